@@ -151,13 +151,23 @@ func runC05(c *Ctx) {
 		if err != nil {
 			continue
 		}
-		ch, _ := m.Child(uint32(1<<31) + uint32(k))
+		chIdx := uint32(1<<31) + uint32(k)
+		if k%2 == 0 { // a child whose private scalar starts with a zero byte (planner search)
+			seedZ := randBytes(r, 32)
+			if ix, ok := findLeadingZeroChild(seedZ, 1, 6000); ok {
+				if mz, err := hdkeychain.NewMaster(seedZ, nets[k%len(nets)]); err == nil {
+					m, chIdx = mz, ix
+				}
+			}
+		}
+		ch, _ := m.Child(chIdx)
 		pub, _ := ch.Neuter()
 		pc, _ := pub.Child(uint32(k))
 		for bi, base := range []*hdkeychain.ExtendedKey{m, ch, pub, pc} {
 			s := base.String()
 			calls := []Event{hdCfg(), {"op": "Parse", "dst": 1, "s": str(s)},
-				{"op": "Child", "src": 1, "dst": 2, "idx": w32(3)}, {"op": "Neuter", "src": 1, "dst": 3}}
+				{"op": "Child", "src": 1, "dst": 2, "idx": w32(3)}, {"op": "Child", "src": 1, "dst": 2, "idx": w32(1<<31 + 3)},
+				{"op": "Neuter", "src": 1, "dst": 3}, {"op": "Child", "src": 3, "dst": 2, "idx": w32(4)}}
 			p := refB58Decode(s)[:78]
 			id := 4
 			parse := func(t string) {
@@ -306,6 +316,20 @@ func runC06(c *Ctx) {
 		s := randStr(c, b58alpha+"0OIl \xc5\x81", 1+r.Intn(60))
 		c.Call(Event{"op": "WifDecode", "s": str(s)})
 	}
+	// "digit 255" twins: a decoder that lets a foreign byte through uses its table value (255) as a
+	// digit; d,'U','Q' = (d-4),255,255 in base 58, so such a twin would decode to the same payload
+	for k := 0; k < c.Pick(400, 4000); k++ {
+		e := Do(nil, Event{"op": "Wif", "key": ints(randBytes(r, 32)), "net": 1 + k%len(nets), "compressed": k%2 == 0})
+		s := gStr(e, "str")
+		for p := 0; p+2 < len(s); p++ {
+			d := indexByte(b58alpha, s[p])
+			if s[p+1] == 'U' && s[p+2] == 'Q' && d >= 4 {
+				for _, fb := range []string{"\xc5\x81", "0O", "\x80\x80", "Il", "\xc3\xa9"} {
+					c.Call(Event{"op": "WifDecode", "s": str(s[:p] + string(b58alpha[d-4]) + fb + s[p+3:])})
+				}
+			}
+		}
+	}
 	// non-ASCII twins of valid strings: a multi-byte character in place of alphabet characters
 	for k := 0; k < c.Pick(30, 300); k++ {
 		e := Do(nil, Event{"op": "Wif", "key": ints(randBytes(r, 32)), "net": 1, "compressed": k%2 == 0})
@@ -404,3 +428,12 @@ func runC15(c *Ctx) {
 // resolveReparse turns the pseudo-op Reparse(src,dst) into Parse(dst, string of src): the
 // string is only known while the history runs, so the op is kept and resolved by opHD.
 func resolveReparse(calls []Event) []Event { return calls }
+
+func indexByte(s string, b byte) int {
+	for i := 0; i < len(s); i++ {
+		if s[i] == b {
+			return i
+		}
+	}
+	return -1
+}
